@@ -379,10 +379,23 @@ def admissible(t, a):
     return all(classify(s, a) != BAD for s in subs)
 
 
+def no_empty_under_buffer(t, under=False):
+    """an instantaneous event extended by a buffer covers time: the reference semantics of the oracle
+    (defined on positive-length events) does not apply there, so such leaves lose their markers"""
+    if t["op"] == "stored":
+        if under:
+            t["evs"] = [e for e in t["evs"] if e[0] != e[1]]
+        return
+    for k in ("l", "r", "s"):
+        if k in t:
+            no_empty_under_buffer(t[k], under or t["op"] == "buf")
+
+
 def gen_cases(rng, tier, n):
     k = 0
     while k < n:
         c = gen_one(rng)
+        no_empty_under_buffer(c["tree"])
         if not admissible(c["tree"], c["a"]):
             continue
         if rng.random() < 0.85:      # mostly cases in which the open-ended slice has something to deliver
